@@ -58,7 +58,7 @@ PROPS = {
                    '(BaseSum, Exponentiation, RandomAccess, Reducing*, MulExtension, ArithmeticExtension, Poseidon*, CosetInterpolation, Lookup*) and '
                    'compute_filter / compute_filter_circuit (iterator products): bounded harness only (c07_gates: 23 gate instances incl. odd bases 3/5/7 x {standard, 37-routed-wire} configuration: extension vs '
                    'base-batch vs in-circuit evaluators incl. filtered with 1 and 2 selectors, declared constraint count, and for every wire a generator writes: the '
-                   'generated row satisfies the gate (also when the inputs are held in non-canonical representation, and for ExponentiationGate with the 66 exponent bits of the standard configuration all set under a random base) and the wire cannot be changed by +1, -1, 12345 without violating a constraint; c07_gate_ids_and_circuit_evaluation: gate ids distinguish every parameterisation, and whole circuits with lookup tables evaluate identically natively and in-circuit; thorough tier: the same battery in an AVX2 build, where the base-batch evaluators run 4 lanes wide).',
+                   'generated row satisfies the gate (also when the inputs are held in non-canonical representation, and for ExponentiationGate with the 66 exponent bits of the standard configuration all set under a random base) and the wire cannot be changed by +1, -1, 12345 without violating a constraint; c07_gate_ids_and_circuit_evaluation: gate ids distinguish every parameterisation, and whole circuits with lookup tables evaluate identically natively and in-circuit; declared vs returned constraint counts and base-batch vs extension evaluators of 12 gate instances in extension degrees 4 and 5; thorough tier: the same battery in an AVX2 build, where the base-batch evaluators run 4 lanes wide).',
         remainder=['all gates other than ArithmeticGate, ConstantGate and ExponentiationGate (bounded harness only)', 'generators run_once (closures over the witness)', 'compute_filter / compute_filter_circuit (assumed to denote the same function)'],
     ),
     'C09': dict(
@@ -196,7 +196,7 @@ PROPS = {
                    'stand-in only.',
         level_note='Trusted: Verus+Z3; vstd::bytes little-endian specs for from_le_bytes/to_le_bytes; abstract Read/Write. Composite encoders (read_proof, '
                    'read_common_circuit_data, per-gate and per-generator pairs): bounded harness only (4 circuit families incl. 256-entry lookup tables '
-                   'and random access; restore, prove with the restored circuit, cross-verify; a Keccak configuration (25-byte digests): proof, compressed proof, verifier-only and verifier circuit data; a circuit carrying a dummy-proof generator over an inner circuit with other common data).',
+                   'and random access; restore, prove with the restored circuit, cross-verify; a Keccak configuration (25-byte digests): proof, compressed proof, verifier-only and verifier circuit data; a circuit carrying a dummy-proof generator over an inner circuit with other common data; a zero-knowledge configuration; the compressed-proof codec on five proofs over small domains, at least one of which is checked to have coinciding FRI query positions).',
         remainder=['composite readers/writers (closures returning Result)', 'gate / generator serializer registries and per-gate pairs', 'restored circuits interchangeable (whole-system)'],
     ),
     'C18': dict(
